@@ -150,6 +150,12 @@ def gen_api_cases(ctx, pools):
                             cases.append(G.Case("api-%s-%s-%s-%s" % (e, it, ot, lay), n, ch, rng.next(), 0, pats, it, "api"))
                             if ot == "i16":
                                 cases.append(G.Case("api-%s-%s-%s-%s-dith" % (e, it, ot, lay), n, ch, rng.next(), 0, pats, it, "api-dith"))
+                # object histories: after soxr_clear (re-initialisation), and deferred initialisation through soxr_set_io_ratio
+                for hist in ("clr", "lazy"):
+                    for ch in (1, 2):
+                        for n in ((3, 37) if quick else (1, 4, 16, 37, 150)):
+                            pats = [rng.choice(pool) for _ in range(n * ch)]
+                            cases.append(G.Case("api-%s-%s-%s-ii-%s" % (e, it, ot, hist), n, ch, rng.next(), 0, pats, it, "api"))
                 # the whole pool once per pair and engine (interleaved, mono)
                 step = 1 if not quick else max(1, len(pool) // 6000)
                 sub = pool[::step]
